@@ -58,7 +58,7 @@ func relsXML(rels []Rel) []byte {
 	b.WriteString(`<?xml version="1.0" encoding="UTF-8" standalone="yes"?>` + "\n")
 	b.WriteString(`<Relationships xmlns="` + NsRel + `">`)
 	for _, r := range rels {
-		fmt.Fprintf(&b, `<Relationship Id="%s" Type="%s" Target="%s"`, r.ID, r.Type, r.Target)
+		fmt.Fprintf(&b, `<Relationship Id="%s" Type="%s" Target="%s"`, r.ID, r.Type, strings.ReplaceAll(r.Target, "&", "&amp;"))
 		if r.External {
 			b.WriteString(` TargetMode="External"`)
 		}
